@@ -157,7 +157,11 @@ def object_level(j, version, key):
         "sighting": [("last-before-first", dict(j, first_seen="2017-01-01T00:00:00Z", last_seen="2016-01-01T00:00:00Z")), ("count-negative", dict(j, count=-1)), ("count-1e9", dict(j, count=1000000000))],
         "marking-definition": [("tlp-wrong-id", dict(wo("name"), definition_type="tlp", definition={"tlp": "red"})), ("tlp-unknown-colour", dict(j, definition_type="tlp", definition={"tlp": "blue"})),
                                ("statement-with-tlp-body", dict(j, definition_type="statement", definition={"tlp": "red"})), ("unknown-definition-type", dict(j, definition_type="x-foo", definition={"a": 1})),
-                               ("no-definition", wo("definition")), ("no-definition-type", wo("definition_type"))],
+                               ("no-definition", wo("definition")), ("no-definition-type", wo("definition_type"))] +
+                              # the four fixed TLP instances are exact: id and created of a colour with the colour spelled in another letter case / with white space
+                              [("tlp-canonical-instance-colour-%s" % lab, dict({k: v for k, v in j.items() if k != "name"}, id=model.TLP["red"][0], created=model.TLP_CREATED, definition_type="tlp", definition={"tlp": col},
+                                                                               **({"name": "TLP:RED"} if version == "2.1" else {})))
+                               for lab, col in (("upper", "RED"), ("capitalised", "Red"), ("trailing-space", "red "), ("prefixed", "TLP:RED"))],
         "artifact": [("payload-and-url", dict(j, payload_bin="YQ==", url="https://e.x/a", hashes={"MD5": gen.HASHES["MD5"]})),
                      # one member of the exclusive pair present but EMPTY
                      ("payload-and-empty-url", dict(j, payload_bin="YQ==", url="", hashes={"MD5": gen.HASHES["MD5"]})),
